@@ -1,7 +1,8 @@
     // ---- specs/etag_contracts.rs: contract of List::next (included inside `mod etag`, after `struct List`) ----
-    /// `List::next` performs exactly one `list_step` on the remaining bytes.
-    pub open spec fn next_post<'a>(old: List<'a>, r: Option<&'a [u8]>, fin: List<'a>) -> bool {
-        match list_step(old.remaining@) {
+    /// `List::next` performs exactly one `list_step` on the remaining bytes - under either reading of OWS after the last tag.
+    pub open spec fn next_post<'a>(old: List<'a>, r: Option<&'a [u8]>, fin: List<'a>) -> bool { next_post_g(old, r, fin, true) || next_post_g(old, r, fin, false) }
+    pub open spec fn next_post_g<'a>(old: List<'a>, r: Option<&'a [u8]>, fin: List<'a>, tol: bool) -> bool {
+        match list_step_g(old.remaining@, tol) {
             Step::End => r.is_none() && fin.remaining@ == old.remaining@ && fin.corrupt == old.corrupt,
             Step::Corrupt => r.is_none() && fin.corrupt && fin.remaining@ == old.remaining@,
             Step::Item(t, rest) => (r matches Some(x) && x@ == t) && fin.remaining@ == rest && fin.corrupt == old.corrupt,
